@@ -53,6 +53,7 @@ ColsOf(t) == CASE t = "sys_pages"  -> << <<"table_name", 1>>, <<"file_offset", 3
                [] t = "t1" -> << <<"a", 0>>, <<"b", 1>> >>
                [] t = "t2" -> << <<"b", 1>>, <<"a", 0>> >>
                [] t = "t3" -> << <<"a", 0>>, <<"b", 1>> >>
+               [] t = "T1" -> << <<"a", 0>>, <<"b", 1>> >>     \* a name that differs from t1 by case only: another table
                [] OTHER -> << <<"a", 0>> >>
 
 Hdr(lk, pt, nx, lsn) == [lastKey |-> lk, ptRoot |-> pt, nx |-> nx, lsn |-> lsn]
